@@ -111,6 +111,8 @@ def main():
     prev = {}
     if os.path.exists(os.path.join(dst, "meta.json")):
         prev = json.load(open(os.path.join(dst, "meta.json")))
+    if prev.get("note"):
+        meta["note"] = prev["note"]
     meta.update({"confirmed": confirm or prev.get("confirmed"), "what_was_run": (prev.get("what_was_run") or []) + ran,
                  "detected_by_check": detected, "check_exit": rc, "violation_keys": [l[9:200] for l in detail][:6]})
     json.dump(meta, open(os.path.join(dst, "meta.json"), "w"), indent=1)
